@@ -33,9 +33,9 @@ BASE_OPTS = {'norm': True, 'raw': False}
 
 def params(tier):
     if tier == 'quick':
-        return {'examples': 2200, 'wall': 130, 'case_timeout': 20, 'max_steps': 8}
+        return {'examples': 2200, 'wall': 200, 'case_timeout': 20, 'max_steps': 8}
 
-    return {'examples': 1500, 'wall': 600, 'case_timeout': 30, 'max_steps': 25}
+    return {'examples': 5000, 'wall': 600, 'case_timeout': 30, 'max_steps': 25}
 
 
 def floors(tier):
